@@ -9,7 +9,10 @@
                 fileGood     the file solo/Solo.mo
                 dirTwin      directory twin/ with one/Twin.mo and two/Twin.mo (same class twice)
                 fileSyntax   a file with a syntax error         (parser returns None)
-                fileListener a file on which the AST listener raises (duplicate declaration)
+                dirFail      directory faillib/ with Good.mo and six models that cannot be flattened / generated,
+                             each failing with a different exception class (see FlattenRejects / CasadiRejects)
+                fileListener a file on which the AST listener raises OSError (duplicate declaration)
+                fileListenerAttr  a file on which the AST listener raises AttributeError (redeclare of an unknown type)
                 notMo        an existing file that is not *.mo
                 dirEmpty     an existing directory without *.mo files
                 missing, missing2   two paths that do not exist
@@ -42,7 +45,7 @@
 EXTENDS Integers, Sequences, FiniteSets, TLC, Json, IOUtils
 
 CONSTANTS MaxDev,        \* an invocation differs from Base in at most MaxDev dimensions ...
-          MaxPaths, MaxModels, MaxOpts,
+          MaxPaths, MaxModels, MaxModelsRich, MaxOpts,
           SampleDev,     \* ... or in exactly SampleDev dimensions and is in the sampled share
           CliCountsTranslateFailures, CliCatchesTranslateErrors, CliCountsMissingModelFile,
           Emit, NParts, Part
@@ -57,8 +60,12 @@ NPartsEnv == atoi(IOEnv.C26_NPARTS)
 
 -----------------------------------------------------------------------------
 (* the file system the invocations talk about *)
-PathKinds == {"dirGood", "fileGood", "dirTwin", "fileSyntax", "fileListener", "notMo", "dirEmpty", "missing", "missing2"}
-ModelNames == {"Leaf", "Mid", "Top", "Dot", "Solo", "Twin", "Bad", "Nope"}
+PathKinds == {"dirGood", "fileGood", "dirTwin", "dirFail", "fileSyntax", "fileListener", "fileListenerAttr", "notMo", "dirEmpty",
+              "missing", "missing2"}
+CoreModels == {"Leaf", "Mid", "Top", "Dot", "Solo", "Twin", "Bad", "Nope"}
+(* models of dirFail: they differ by HOW (with which exception class) and WHERE (flattener / one generator) they fail *)
+FailModels == {"Good", "Typo", "SelfExt", "SubMod", "ConnKey", "UnkFunc", "AlgSec"}
+ModelNames == CoreModels \cup FailModels
 OptKinds == {"valid", "noeq", "twoeq"}
 
 (* *.mo files found below a path: sequence of [stem, dir, ok] *)
@@ -67,6 +74,11 @@ FilesOf(k) ==
                                   [stem |-> "Top", dir |-> "lib", ok |-> TRUE], [stem |-> "Dot", dir |-> "lib", ok |-> TRUE],
                                   [stem |-> "Bad", dir |-> "lib", ok |-> TRUE] >>
       [] k = "fileGood"     -> << [stem |-> "Solo", dir |-> "solo", ok |-> TRUE] >>
+      [] k = "dirFail"      -> << [stem |-> "Good", dir |-> "faillib", ok |-> TRUE], [stem |-> "Typo", dir |-> "faillib", ok |-> TRUE],
+                                  [stem |-> "SelfExt", dir |-> "faillib", ok |-> TRUE], [stem |-> "SubMod", dir |-> "faillib", ok |-> TRUE],
+                                  [stem |-> "ConnKey", dir |-> "faillib", ok |-> TRUE], [stem |-> "UnkFunc", dir |-> "faillib", ok |-> TRUE],
+                                  [stem |-> "AlgSec", dir |-> "faillib", ok |-> TRUE] >>
+      [] k = "fileListenerAttr" -> << [stem |-> "Redecl", dir |-> "broken3", ok |-> FALSE] >>
       [] k = "dirTwin"      -> << [stem |-> "Twin", dir |-> "twin/one", ok |-> TRUE], [stem |-> "Twin", dir |-> "twin/two", ok |-> TRUE] >>
       [] k = "fileSyntax"   -> << [stem |-> "Syn", dir |-> "broken", ok |-> FALSE] >>
       [] k = "fileListener" -> << [stem |-> "Dup", dir |-> "broken2", ok |-> FALSE] >>
@@ -80,14 +92,26 @@ NStem(P, m) == SumOver(P, [k \in P |-> Cardinality({n \in DOMAIN FilesOf(k) : Fi
 (* classes of the library obtained by parsing every good file of the paths *)
 Classes(P) == UNION {{FilesOf(k)[n].stem : n \in {i \in DOMAIN FilesOf(k) : FilesOf(k)[i].ok}} : k \in P}
 Needs(m) == CASE m = "Mid" -> {"Mid", "Leaf"} [] m = "Top" -> {"Top", "Mid", "Leaf"} [] m = "Dot" -> {"Dot", "Mid", "Leaf"}
+              [] m = "Typo" -> {"Typo", "Good"} [] m = "SubMod" -> {"SubMod", "Good"}
               [] OTHER -> {m}
 
 (* does the request for model m fail?  A function of (m, target, paths, outdir) ONLY. *)
-FlattenFails(m, P) == ~(Needs(m) \subseteq Classes(P)) \/ m = "Bad"
+(* the flattener rejects them, each with another exception class:
+     Bad     unknown component type            ast.ClassNotFoundError
+     Typo    modification of a missing element  tree.ModificationTargetNotFound
+     SelfExt class extending itself             bare Exception
+     SubMod  subscripted modifier               bare Exception (re-raised with the symbol name)
+     ConnKey connect() to an undeclared name    KeyError
+   the CasADi generator alone rejects (flatten and sympy succeed):
+     UnkFunc call of an unknown function        bare Exception
+     AlgSec  algorithm section in a model       NotImplementedError                                  *)
+FlattenRejects == {"Bad", "Typo", "SelfExt", "SubMod", "ConnKey"}
+CasadiRejects == {"UnkFunc", "AlgSec"}
+FlattenFails(m, P) == ~(Needs(m) \subseteq Classes(P)) \/ m \in FlattenRejects
 Fails(m, target, P, outdir) ==
     CASE target = "none"   -> FlattenFails(m, P)
       [] target = "sympy"  -> FlattenFails(m, P) \/ outdir = "blocked"
-      [] target = "casadi" -> NStem(P, m) # 1 \/ m = "Bad"      \* the model directory is inferred from a unique <m>.mo
+      [] target = "casadi" -> NStem(P, m) # 1 \/ m \in FlattenRejects \cup CasadiRejects   \* model directory = that of the unique <m>.mo
 
 -----------------------------------------------------------------------------
 (* declarative side *)
@@ -107,15 +131,18 @@ Expected(v) ==
 
 -----------------------------------------------------------------------------
 (* the family: everything within MaxDev changes of a plain invocation (base 0), and everything within MaxDev
-   changes of the model / output / option / verbosity arguments of two calls on a rich library (bases 1, 2) *)
+   changes of the model / output / verbosity arguments of the calls  -t casadi | -t sympy | flatten-only  on a rich
+   library that includes dirFail (bases 1, 2, 3; there every model name of ModelNames can be requested) *)
 Base(b) == CASE b = 0 -> [paths |-> {"dirGood"}, outdir |-> "ok", models |-> <<"Leaf">>, target |-> "none", opts |-> <<>>, verbose |-> 0]
-             [] b = 1 -> [paths |-> {"dirGood", "fileGood", "dirTwin"}, outdir |-> "ok", models |-> <<"Leaf">>, target |-> "casadi",
-                          opts |-> <<>>, verbose |-> 0]
-             [] b = 2 -> [paths |-> {"dirGood", "fileGood", "dirTwin"}, outdir |-> "ok", models |-> <<"Leaf">>, target |-> "sympy",
-                          opts |-> <<>>, verbose |-> 0]
-Bases == 0..2
+             [] b = 1 -> [paths |-> {"dirGood", "fileGood", "dirTwin", "dirFail"}, outdir |-> "ok", models |-> <<"Leaf">>,
+                          target |-> "casadi", opts |-> <<>>, verbose |-> 0]
+             [] b = 2 -> [paths |-> {"dirGood", "fileGood", "dirTwin", "dirFail"}, outdir |-> "ok", models |-> <<"Leaf">>,
+                          target |-> "sympy", opts |-> <<>>, verbose |-> 0]
+             [] b = 3 -> [paths |-> {"dirGood", "fileGood", "dirTwin", "dirFail"}, outdir |-> "ok", models |-> <<"Leaf">>,
+                          target |-> "none", opts |-> <<>>, verbose |-> 0]
+Bases == 0..3
 Dims == {"paths", "outdir", "models", "target", "opts", "verbose"}
-FreeDims(b) == IF b = 0 THEN Dims ELSE Dims \ {"paths", "target"}
+FreeDims(b) == IF b = 0 THEN Dims ELSE {"models", "outdir", "verbose"}
 SeqsUpTo(S, n) == UNION {[1..k -> S] : k \in 0..n}
 Hash(v) == (17 * Cardinality(v.paths) + 3 * Len(v.models) + 5 * Len(v.opts) + 7 * v.verbose
             + 11 * Cardinality(v.paths \cap {"dirGood", "fileSyntax", "missing", "dirTwin"})
@@ -125,14 +152,15 @@ Hash(v) == (17 * Cardinality(v.paths) + 3 * Len(v.models) + 5 * Len(v.opts) + 7 
 (* outside the verdict family (see notes/C26.md): with -t casadi the files of PATH are never parsed, so what the
    status should be when one of them is broken is not fixed by the property *)
 InFamily(v) == ~(v.target = "casadi" /\ v.paths \cap {"fileSyntax", "fileListener"} # {})
-Dom(f) == CASE f = "paths"   -> {P \in SUBSET PathKinds : Cardinality(P) <= MaxPaths}
+Dom(b, f) ==
+          CASE f = "paths"   -> {P \in SUBSET PathKinds : Cardinality(P) <= MaxPaths}
             [] f = "outdir"  -> {"ok", "missing", "blocked", "default"}
-            [] f = "models"  -> SeqsUpTo(ModelNames, MaxModels)
+            [] f = "models"  -> IF b = 0 THEN SeqsUpTo(CoreModels, MaxModels) ELSE SeqsUpTo(ModelNames, MaxModelsRich)
             [] f = "target"  -> {"none", "sympy", "casadi", "bogus"}
             [] f = "opts"    -> SeqsUpTo(OptKinds, MaxOpts)
             [] f = "verbose" -> 0..2
 (* the invocations that differ from base b exactly in the dimensions D *)
-Variants(b, D) == [f \in Dims |-> IF f \in D THEN Dom(f) \ {Base(b)[f]} ELSE {Base(b)[f]}]
+Variants(b, D) == [f \in Dims |-> IF f \in D THEN Dom(b, f) \ {Base(b)[f]} ELSE {Base(b)[f]}]
 VariantSet(b, D) == LET V == Variants(b, D) IN
     [paths : V["paths"], outdir : V["outdir"], models : V["models"], target : V["target"], opts : V["opts"], verbose : V["verbose"]]
 Around(b, n) == UNION {VariantSet(b, D) : D \in {E \in SUBSET FreeDims(b) : Cardinality(E) = n}}
